@@ -255,6 +255,9 @@ def _run(plugin, pid, tier, seed, work, violations, known_lines, coverage, repla
         terms.append(plugin.to_coq(c, obs))
         idxmap.append(i)
     bad = coq_eval(plugin, terms, work, "main", shard=getattr(plugin, "SHARD", 250)) if terms else {}
+    # verdict 7 = the executable engine (regex ...) disagrees with the Go library on this case: it says nothing about /repo
+    discarded += sum(1 for v in bad.values() if v == 7)
+    bad = {k: v for k, v in bad.items() if v != 7}
     # 4. verdicts
     nontriv = set()
     for j, i in enumerate(idxmap):
